@@ -175,9 +175,23 @@ package keeper
 //@ loop 0 invariant [other_snapshots_untouched] forall s bytes :: s != bytes(snapshot) ==> (has(bridge.SnapshotToAttestationsMap, s) <==> old(has(bridge.SnapshotToAttestationsMap, s))) && bridge.SnapshotToAttestationsMap[s] == old(bridge.SnapshotToAttestationsMap[s])
 
 // ---- EVM address registration (C17) ----
-// EVMAddressFromSignatures recovers the signer of two fixed messages with secp256k1 (crypto, not modelled): trusted, reads only.
-//@ func (k Keeper).EVMAddressFromSignatures(ctx, sigA, sigB) (addr, err)
+// Recovery of a signer with secp256k1 is an uninterpreted function: recovered(sig, hash, id) is the address recovered
+// from the first 64 bytes of sig over hash with recovery id id. TryRecoverAddressWithBothIDs (crypto.SigToPub) is trusted
+// to return those for ids 0 and 1. The registered address must be one the validator's OWN two signatures over the two
+// fixed messages both recover to.
+//@ define recovered(sig, h, id) = somebytes("recovered_address", bytes(sig), h, id)
+//@ define hash_a() = sha256(sha256(strbytes("TellorLayer: Initial bridge signature A")))
+//@ define hash_b() = sha256(sha256(strbytes("TellorLayer: Initial bridge signature B")))
+
+//@ func (k Keeper).TryRecoverAddressWithBothIDs(sig, msgHash) (addrs, err)
 //@ trusted
+//@ ensures [both_recovery_ids] err == nil ==> len(addrs) == 2 && bytes(addrs[0]) == recovered(sig, bytes(msgHash), 0) && bytes(addrs[1]) == recovered(sig, bytes(msgHash), 1)
+//@ ensures [reads_only] nothing_written()
+
+//@ func (k Keeper).EVMAddressFromSignatures(ctx, sigA, sigB) (addr, err)
+//@ ensures [the_address_is_recovered_from_signature_a] err == nil ==> bytes(addr) == recovered(sigA, hash_a(), 0) || bytes(addr) == recovered(sigA, hash_a(), 1)
+//@ ensures [and_from_signature_b] err == nil ==> bytes(addr) == recovered(sigB, hash_b(), 0) || bytes(addr) == recovered(sigB, hash_b(), 1)
+//@ ensures [reads_only] nothing_written()
 
 //@ func (k Keeper).GetEVMAddressByOperator(ctx, operatorAddress) (evmAddr, err)
 //@ ensures [found_iff_registered] (err == nil) <==> has(bridge.OperatorToEVMAddressMap, operatorAddress)
@@ -243,3 +257,13 @@ package keeper
 //@ ensures [digest_is_bound_to_the_current_validator_checkpoint] called(EncodeOracleAttestationData) ==> bytes(arg(EncodeOracleAttestationData, valsetCheckpoint)) == bytes(ret(GetValidatorCheckpointFromStorage, 0).Checkpoint) && bytes(arg(EncodeOracleAttestationData, queryId)) == bytes(queryId)
 //@ ensures [stored_snapshot_data_are_the_digest_inputs] err == nil ==> has(bridge.AttestSnapshotDataMap, bytes(ret(EncodeOracleAttestationData, 0))) && bridge.AttestSnapshotDataMap[bytes(ret(EncodeOracleAttestationData, 0))].Timestamp == unixms(timestamp) && bridge.AttestSnapshotDataMap[bytes(ret(EncodeOracleAttestationData, 0))].AttestationTimestamp == unixms(blocktime(ctx)) && bridge.AttestSnapshotDataMap[bytes(ret(EncodeOracleAttestationData, 0))].PrevReportTimestamp == arg(EncodeOracleAttestationData, previousTimestamp) && bridge.AttestSnapshotDataMap[bytes(ret(EncodeOracleAttestationData, 0))].NextReportTimestamp == arg(EncodeOracleAttestationData, nextTimestamp)
 //@ ensures [one_signature_slot_per_member_of_the_current_set] err == nil ==> has(bridge.SnapshotToAttestationsMap, bytes(ret(EncodeOracleAttestationData, 0))) && len(bridge.SnapshotToAttestationsMap[bytes(ret(EncodeOracleAttestationData, 0))].Attestations) == len(bridge.BridgeValset.BridgeValidatorSet)
+
+// ---- how far the validator set has moved since the last checkpoint (C16) ----
+// The shift is the sum over all addresses of the ABSOLUTE difference between the old and the new power (gross power
+// moved: a gain of one validator does not cancel the loss of another), relative to the old total, with six decimals.
+// The code adds in int64: the accumulation is stated modulo 2^64.
+//@ func (k Keeper).PowerDiff(ctx, b, c) (r)
+//@ requires [members_present] (forall j in [0, len(b.BridgeValidatorSet)) :: b.BridgeValidatorSet[j] != nil) && forall j in [0, len(c.BridgeValidatorSet)) :: c.BridgeValidatorSet[j] != nil
+//@ ensures [reads_only] nothing_written()
+//@ loop 2 "for _, v := range powers"
+//@ loop 2 invariant [shift_so_far_is_the_sum_of_the_absolute_differences] mod(delta, 18446744073709551616) == mod(retsum(absInt64, 0), 18446744073709551616)
